@@ -43,6 +43,8 @@ def main(run: Run):
         run.bounded_notes.append(f"Arbiter.elaborate statements: outside the pyvc subset on this tree ({e}); per-N clauses decide")
     from . import validation
     validation.add_to(run, ['arbiter_add'])
+    from . import ctor_l1 as _ctor_l1
+    _ctor_l1.add_to(run, ['wb_arbiter_init'])
     return run.finish(
         explanation="Arbiter.elaborate contract with an observational owner predicate and the inductive invariant "
                     "'exactly one owner': request fan-out (select replication, defaults), response routing, isolation of "
